@@ -329,6 +329,7 @@ class Oracle:
         self.memo = {}
         self.counts = {}
         self.log = None
+        self.chain_log = None          # set to [] to record every (clock, x5c, anchors, OpenSSL verdict) the model asked about
 
     def __call__(self, q):
         if q in self.memo:
@@ -390,5 +391,8 @@ class Oracle:
             x5c = [fw.rd_b(T.next()) for _ in range(n)]
             m = int(T.next())
             roots = [fw.rd_b(T.next()) for _ in range(m)]
-            return ref_chain(now, x5c, roots)
+            v = ref_chain(now, x5c, roots)
+            if self.chain_log is not None and len(self.chain_log) < 20000:
+                self.chain_log.append((now, x5c, roots, v))
+            return v
         raise ValueError("unknown ASK " + q[:80])
